@@ -5,11 +5,13 @@ use crate::engine::{Ctx, Failure};
 use serde_json::Value;
 
 pub mod c01;
+pub mod c04;
 pub mod c18;
 
 pub fn run(prop: &str, ctx: &mut Ctx) -> bool {
     match prop {
         "C01" => c01::run(ctx),
+        "C04" => c04::run(ctx),
         "C18" => c18::run(ctx),
         _ => return false,
     }
@@ -19,6 +21,7 @@ pub fn run(prop: &str, ctx: &mut Ctx) -> bool {
 pub fn replay(prop: &str, case: &Value) -> Option<Vec<Failure>> {
     Some(match prop {
         "C01" => c01::replay(case),
+        "C04" => c04::replay(case),
         "C18" => c18::replay(case),
         _ => return None,
     })
